@@ -5,7 +5,6 @@ import (
 	"strings"
 	"time"
 
-	"github.com/nyaruka/gocommon/dates"
 	"github.com/nyaruka/gocommon/stringsx"
 	"github.com/nyaruka/goflow/assets"
 	"github.com/nyaruka/goflow/envs"
@@ -145,7 +144,7 @@ func numberComparison(objectVal decimal.Decimal, op Operator, queryVal decimal.D
 }
 
 func dateComparison(objectVal time.Time, op Operator, queryVal time.Time) bool {
-	utcDayStart, utcDayEnd := dates.DayToUTCRange(queryVal, queryVal.Location())
+	utcDayStart, utcDayEnd := DayRange(queryVal)
 
 	switch op {
 	case OpEqual:
@@ -163,6 +162,26 @@ func dateComparison(objectVal time.Time, op Operator, queryVal time.Time) bool {
 	default:
 		panic(fmt.Sprintf("can't query date fields with %s", op))
 	}
+}
+
+// DayRange returns the first instant of the calendar day of the given time (in its own location) and the
+// first instant of the following day. Adding 24 hours to local midnight is not equivalent on days where the
+// location's UTC offset changes, and local midnight doesn't exist at all in locations which move their clocks
+// forward at midnight.
+func DayRange(d time.Time) (time.Time, time.Time) {
+	year, month, day := d.Date()
+	return startOfDay(year, month, day, d.Location()), startOfDay(year, month, day+1, d.Location())
+}
+
+func startOfDay(year int, month time.Month, day int, loc *time.Location) time.Time {
+	t := time.Date(year, month, day, 0, 0, 0, 0, loc)
+
+	// if local midnight doesn't exist then time.Date can give us a time before the clock change, i.e. on the
+	// previous day, in which case the day starts at the clock change
+	if t.Day() != time.Date(year, month, day, 0, 0, 0, 0, time.UTC).Day() {
+		_, t = t.ZoneBounds()
+	}
+	return t
 }
 
 // performs a prefix match which should be equivalent to an edge_ngram filter in ES
